@@ -194,25 +194,45 @@ pub fn panic_message(p: Box<dyn std::any::Any + Send>) -> String {
    }
 }
 
-fn map_db_to_variant(db: &Db, meta: &Meta) -> Db {
-   if meta.rel_map.is_empty() {
-      return db.clone();
+fn map_val(v: &vcore::val::Val, scheme: &str, forward: bool) -> vcore::val::Val {
+   use vcore::val::Val;
+   match (v, scheme, forward) {
+      (Val::I(c), "big", true) => Val::I(c * 1000 + 7),
+      (Val::I(c), "big", false) => Val::I((c - 7) / 1000),
+      (Val::I(c), "str", true) => Val::S(format!("k{c}")),
+      (Val::S(s), "str", false) => Val::I(s[1..].parse().expect("renamed constant")),
+      (Val::Some_(x), _, _) => Val::some(map_val(x, scheme, forward)),
+      (Val::Tup(xs), _, _) => Val::Tup(xs.iter().map(|x| map_val(x, scheme, forward)).collect()),
+      (other, _, _) => other.clone(),
    }
+}
+
+fn map_db_to_variant(db: &Db, meta: &Meta) -> Db {
    let inv: BTreeMap<&String, &String> = meta.rel_map.iter().map(|(v, b)| (b, v)).collect();
    let mut out = Db::default();
    for (k, v) in &db.rels {
-      out.rels.insert(inv.get(k).map(|s| (*s).clone()).unwrap_or_else(|| k.clone()), v.clone());
+      let mut rows = v.clone();
+      if meta.permute_input && rows.len() >= 2 {
+         rows.reverse();
+         let n = rows.len() / 2;
+         rows.rotate_left(n);
+      }
+      if let Some(s) = &meta.val_map {
+         rows = rows.iter().map(|r| r.iter().map(|x| map_val(x, s, true)).collect()).collect();
+      }
+      out.rels.insert(inv.get(k).map(|s| (*s).clone()).unwrap_or_else(|| k.clone()), rows);
    }
    out
 }
 
 fn map_db_to_base(db: &Db, meta: &Meta) -> Db {
-   if meta.rel_map.is_empty() {
-      return db.clone();
-   }
    let mut out = Db::default();
    for (k, v) in &db.rels {
-      out.rels.insert(meta.rel_map.get(k).cloned().unwrap_or_else(|| k.clone()), v.clone());
+      let rows = match &meta.val_map {
+         Some(s) => v.iter().map(|r| r.iter().map(|x| map_val(x, s, false)).collect()).collect(),
+         None => v.clone(),
+      };
+      out.rels.insert(meta.rel_map.get(k).cloned().unwrap_or_else(|| k.clone()), rows);
    }
    out
 }
@@ -319,7 +339,18 @@ pub fn run_case(group: &Group, input: &Db, plan: &ParPlan, case_seed: u64) -> Ca
                // do not exist there: the row-multiset check uses the input as a set
                let dedup_input;
                let cmp_input = if m.meta.kind.is_run() {
-                  dedup_input = dedup_db(input);
+                  // relations initialised with `relation r(..) = local` keep the caller's vector as it is
+                  let init: Vec<String> = serde_json::from_str::<serde_json::Value>(m.entry.opts)
+                     .ok()
+                     .and_then(|o| o["init_rels"].as_array().map(|a| a.iter().filter_map(|x| x.as_str().map(String::from)).collect()))
+                     .unwrap_or_default();
+                  let mut d = dedup_db(input);
+                  for name in init {
+                     if let Some(rows) = input.rels.get(&name) {
+                        d.rels.insert(name, rows.clone());
+                     }
+                  }
+                  dedup_input = d;
                   &dedup_input
                } else {
                   input
@@ -402,13 +433,32 @@ pub fn classify(prop: &str, group: &Group, input: &Db, st: &EvalStats, summaries
    for s in summaries.iter().take(1) {
       let _ = s;
    }
+   let ref_summary = group.members.iter().find(|m| m.meta.is_ref).map(|m| (m.entry.summary)()).unwrap_or("");
+   let mut plan_differs = false;
    for m in &group.members {
       for l in &m.meta.labels {
          labels.push(l.clone());
       }
+      if !m.meta.is_ref && (m.entry.summary)() != ref_summary {
+         plan_differs = true;
+         labels.push(format!("plan_differs:{}", m.meta.variant));
+      }
    }
    let nontrivial = match prop {
-      "C01" | "C06" | "C07" | "C08" | "C09" => looping_productive >= 2 && st.derived_new >= 1,
+      "C06" => st.derived_new >= 1 && (plan_differs || group.members.iter().any(|m| m.meta.val_map.is_some() || m.meta.permute_input)),
+      "C08" => {
+         // does this input distinguish the hygienic reading from the capturing one?
+         let captured = vcore::xform::expand_macros_unhygienic(&group.ref_prog);
+         let distinguishes = match (eval::eval(&captured, input, EvalOpts::default()), eval::eval(&group.ref_prog, input, EvalOpts::default())) {
+            (Ok(a), Ok(b)) => a.db != b.db,
+            _ => false,
+         };
+         if distinguishes {
+            labels.push("input_distinguishes_capture_from_hygiene".into());
+         }
+         st.derived_new >= 1 && distinguishes
+      },
+      "C01" | "C07" | "C09" => looping_productive >= 2 && st.derived_new >= 1,
       "C02" => st.multi_derived_same_round >= 1 && st.derived_new >= 1,
       "C03" => st.max_lat_increases >= 2 && st.lat_improving_rounds >= 2,
       "C04" => (st.agg_groups_ge2 >= 1 || (st.neg_true >= 1 && st.neg_false >= 1)) && st.derived_new >= 1,
